@@ -522,6 +522,25 @@ impl Property for C16 {
         }
         out
     }
+    /// libFuzzer input: layout bits, kind (spanned tree / stray token), anchor percentages,
+    /// decoration script, tree
+    fn fuzz_decode(data: &[u8]) -> Option<(&'static str, Case, bool)> {
+        let mut b = engine::Bytes::new(data);
+        let lb = b.u16() as u32;
+        let stray = b.below(3) == 0;
+        let (a, al) = b.pick(&[(0u16, 0u16), (25, 25), (35, 30)]);
+        let pos = b.u16();
+        let tok = b.below(10) as u8;
+        let script = gdoc::script_from_bytes(&mut b, 24);
+        let t = gdoc::tree_from_bytes(&mut b, if stray { 3 } else { 4 });
+        let c = if stray {
+            Case { doc: gdoc::decorate(&t, &script, 20, 20, 0), layout: Layout::from_bits(lb), bad_leaf: Some(pos as usize), special: 100 + tok }
+        } else {
+            Case { doc: gdoc::decorate(&t, &script, a, al, 0), layout: Layout::from_bits(lb), bad_leaf: None, special: 0 }
+        };
+        let nt = nontrivial(&c);
+        Some((if stray { "fuzz-syntax-error-locations" } else { "fuzz-spanned-tree" }, c, nt))
+    }
     fn generate(ctx: &mut Ctx<Self>) {
         // (1) generic span tree over decorated documents
         let strat = (gdoc::arb_tree(4, 24), prop::collection::vec(any::<u16>(), 8..40), prop::sample::select(vec![(0u16, 0u16), (25, 25), (35, 30)]), 0u32..(1 << 12))
